@@ -100,22 +100,23 @@ def h_builder(L, n, steps):
 
 
 def queries(tier):
-    th = tier == 'thorough'
+    deep = 1 if tier == 'thorough' else 0      # the former thorough bounds are the quick bounds now
+    th = True
     qs = []
 
     def addp(parts):
         qs.append(Query('parse String|SmallString %s' % show_template(parts), h_parser, {'parts': parts}, bound='input = %s through both instantiations on one path' % show_template(parts)))
-    for n in lens(5 if th else 4):
+    for n in lens(5 + deep):
         addp(['pkg:', ('hole', 'h', n)])
     for n in lens(5 if th else 4, 1):
         addp(['pkg:', ('hole', 'h', n), '/n'])
         addp(['pkg:', ('hole', 'h', n), '/ns/n@1?k=v#s'])
     for sl in SLOTS_MIN + SLOTS_FULL:
-        for n in lens(3 if th else 2, 1):
+        for n in lens(3 + deep, 1):
             addp(fill(sl, n))
     for n in lens(4 if th else 3, 1):
         addp(['pkg:t/n?checksum=', ('hole', 'h', n)])
-    for n in lens(5 if th else 4):
+    for n in lens(5 + deep):
         for steps in ([], [('with_namespace', 'ns'), ('with_version', '1'), ('with_qualifier', 'K', 'v'), ('with_subpath', 's')]):
             qs.append(Query('build String|Cow|SmallString type=⟦%d⟧ %s' % (n, 'full' if steps else 'minimal'), h_builder, {'n': n, 'steps': steps},
                             bound='type string = every valid-UTF-8 string of %d bytes (valid and invalid types), four type parameters on one path' % n))
